@@ -697,6 +697,19 @@ def gen_requests(ctx, n_sets, n_fams):
     return reqs
 
 
+def request_verdict(r, impl, res):
+    """the property's own verdict on a correspondence request (independent of the model)"""
+    op, cty, x = r
+    if op == "dec":
+        check_dec_verdict(cty, un_wire(x), res, observed=impl)
+    elif op in ("build", "enc", "rt"):
+        if impl[0] == "ok" and spec_expected_reject(cty, x):
+            check_specs_verdict(cty, [[s_] for s_ in x], res)
+    elif op == "calls":
+        if impl[1][1] is None and spec_expected_reject(cty, [s_ for c in x for s_ in c]):
+            check_specs_verdict(cty, x, res)
+
+
 def correspondence(ctx, res):
     reqs = gen_requests(ctx, ctx.scale(700, 7000), ctx.scale(350, 3500))
     impl = [impl_eval(r) for r in reqs]
@@ -707,6 +720,7 @@ def correspondence(ctx, res):
         res.count("result:" + (i[0] if i[0] == "ok" else "err:" + i[1]))
         if nontrivial(r):
             res.nontrivial.add(canon(r))
+        request_verdict(r, i, res)
         mj = json.loads(m)
         if mj == ["err", "unmodelled"]:
             res.count("unmodelled")
@@ -891,6 +905,153 @@ def check_call(cty, shape, res):
     for k, d in before.items():
         if ds.delegations.get(k) is not d:
             res.violation("C12:reject:duplicate-id:replaced:" + cty, "a delegation already in the container was replaced or lost", case)
+
+
+CONTENTS = ["own", "other", "both", "none"]
+FORMATS = ["SinglePool", "PoolDefinition", "PoolReference"]
+
+
+def matrix_verdict(fmt, content):
+    """Expected verdict from the property text: 'mixing label and capacity content ... or details on a reference are always
+    rejected'; a single-resource delegation / pool definition with details of its own type is the well-formed case.
+    None = the text gives no verdict (a single / definition without details is not in the property's quantifier)."""
+    if fmt == "PoolReference":
+        return "accept" if content == "none" else "reject"
+    return {"own": "accept", "other": "reject", "both": "reject", "none": None}[content]
+
+
+def entry_class(cty, v, K):
+    """(format, content) of one decoded JSON entry, or None when it is not a recognisable delegation entry"""
+    if not isinstance(v, dict):
+        return None
+    own_k, oth_k = (K.FIELD_CAPACITIES, K.FIELD_LABELS) if cty == "CAPACITY" else (K.FIELD_LABELS, K.FIELD_CAPACITIES)
+    own, oth = own_k in v, oth_k in v
+    content = "both" if own and oth else "own" if own else "other" if oth else "none"
+    if K.FIELD_POOL_ID in v:
+        return ("SinglePool" if v[K.FIELD_POOL_ID] == K.SINGLE_POOL_NAME else "PoolDefinition"), content
+    if K.FIELD_POOL in v:
+        return "PoolReference", content
+    return None
+
+
+def check_dec_verdict(cty, obj, res, observed=None):
+    """a JSON text in which some entry must be rejected (by the matrix) must not decode"""
+    dm, cl, K = mods()
+    if not isinstance(obj, dict):
+        return
+    bad = None
+    for k, v in obj.items():
+        c = entry_class(cty, v, K)
+        if c is not None and matrix_verdict(*c) == "reject":
+            bad = (k, c)
+            break
+    if bad is None:
+        return
+    if observed is None:
+        try:
+            observed = ["ok", delegs_canon(dm.Delegations.from_json(json_str=json.dumps(obj), atype=dm.DelegationType[cty]), cl)]
+        except Exception as e:
+            observed = ["err", err_kind(e)]
+    if observed[0] == "ok":
+        res.violation("C12:matrix:decoder:%s:%s:%s" % (bad[1][0], bad[1][1], cty),
+                      "from_json accepts an entry that is a %s with %s-type details" % bad[1],
+                      {"kind": "dec", "cty": cty, "obj": obj}, expected="rejected (entry %r)" % bad[0], observed=observed[1])
+
+
+def spec_expected_reject(cty, specs):
+    """API-built delegation list: must some step be rejected by the property's rules?"""
+    seen = set()
+    for s in specs:
+        if s["ty"] != cty:
+            return "mixed-container"
+        if s["det"] is not None and s["fmt"] == "PoolReference":
+            return "details-on-reference"
+        if s["det"] is not None and s["det"][0] != s["ty"]:
+            return "mixed-details"
+        if s["id"] in seen:
+            return "duplicate-id"
+        seen.add(s["id"])
+    return None
+
+
+def check_specs_verdict(cty, calls, res):
+    """calls: list of argument lists for add_delegations"""
+    dm, cl, K = mods()
+    why = spec_expected_reject(cty, [s for c in calls for s in c])
+    if why is None:
+        return
+    ds = dm.Delegations(atype=dm.DelegationType[cty])
+    try:
+        for c in calls:
+            ds.add_delegations(*[build_arg(s, dm, cl) for s in c])
+    except Exception:
+        return
+    res.violation("C12:matrix:api:%s:%s" % (why, cty), "delegations that must be rejected (%s) were accepted through the API" % why,
+                  {"kind": "specs", "cty": cty, "calls": calls}, expected="rejected", observed=delegs_canon(ds, cl))
+
+
+def check_matrix(cty, res):
+    """every format x {own, other, both, none} details x API / decoder, verdicts from matrix_verdict"""
+    dm, cl, K = mods()
+    T = dm.DelegationType[cty]
+    own_d = ["CAPACITY", to_wire({"core": 2})] if cty == "CAPACITY" else ["LABEL", to_wire({"vlan": "3"})]
+    oth_d = ["LABEL", to_wire({"vlan": "3"})] if cty == "CAPACITY" else ["CAPACITY", to_wire({"core": 2})]
+    own_k, oth_k = (K.FIELD_CAPACITIES, K.FIELD_LABELS) if cty == "CAPACITY" else (K.FIELD_LABELS, K.FIELD_CAPACITIES)
+    for fmt in FORMATS:
+        for content in CONTENTS:
+            verdict = matrix_verdict(fmt, content)
+            sig = "%s:%s:%s" % (fmt, content, cty)
+            case = {"kind": "matrix", "cty": cty}
+            res.count("matrix:" + str(verdict))
+            # ---- API: set_details calls, own first then other and the other way round
+            orders = {"own": [["own"]], "other": [["other"]], "both": [["own", "other"], ["other", "own"]], "none": [[]]}[content]
+            for order in orders:
+                x, y = mk_det(own_d, cl), mk_det(oth_d, cl)
+                d = dm.Delegation(atype=T, delegation_id="a", aformat=dm.DelegationFormat[fmt], pool_id=None if fmt == "SinglePool" else "p")
+                outcome = [raises(lambda w=w: d.set_details(x if w == "own" else y)) for w in order]
+                for w, r in zip(order, outcome):
+                    must_reject = fmt == "PoolReference" or w == "other"
+                    if must_reject and r is None:
+                        res.violation("C12:matrix:api:" + sig, "set_details accepted %s-type details on a %s" % (w, fmt), case)
+                    if not must_reject and r is not None:
+                        res.violation("C12:matrix:api-valid-rejected:" + sig, "set_details rejected own-type details on a %s" % fmt, case)
+                want = x if (fmt != "PoolReference" and "own" in order) else None
+                if d.get_details() is not want:
+                    res.violation("C12:matrix:api-state:" + sig, "details after the set_details calls are not the accepted ones", case)
+                if verdict == "accept" or (verdict == "reject" and fmt != "PoolReference" and "own" in order):
+                    # what was accepted encodes and decodes to itself, carrying nothing of the rejected content
+                    try:
+                        ds = dm.Delegations(atype=T)
+                        ds.add_delegations(d)
+                        back = dm.Delegations.from_json(json_str=ds.to_json(), atype=T)
+                        if delegs_canon(back, cl) != delegs_canon(ds, cl):
+                            res.violation("C12:matrix:api-roundtrip:" + sig, "accepted delegation does not round trip", case)
+                    except Exception as e:
+                        res.violation("C12:matrix:api-roundtrip-raises:" + sig, "accepted delegation does not encode/decode: %s" % e, case)
+            # ---- decoder
+            entry = {K.FIELD_POOL: "p"} if fmt == "PoolReference" else {K.FIELD_POOL_ID: K.SINGLE_POOL_NAME if fmt == "SinglePool" else "p"}
+            if content in ("own", "both"):
+                entry[own_k] = un_wire(own_d[1])
+            if content in ("other", "both"):
+                entry[oth_k] = un_wire(oth_d[1])
+            for e in ([entry, dict(reversed(list(entry.items())))] if len(entry) > 1 else [entry]):
+                text = json.dumps({"a": e})
+                got = []
+                r = raises(lambda: got.append(dm.Delegations.from_json(json_str=text, atype=T)))
+                dcase = {"kind": "dec", "cty": cty, "obj": {"a": e}}
+                if verdict == "reject" and r is None:
+                    res.violation("C12:matrix:decoder:" + sig, "from_json accepts an entry that is a %s with %s-type details" % (fmt, content),
+                                  dcase, expected="rejected", observed=delegs_canon(got[0], cl))
+                if verdict == "accept":
+                    if r is not None:
+                        res.violation("C12:matrix:decoder-valid-rejected:" + sig, "from_json rejects a well-formed %s entry (%s)" % (fmt, r), dcase)
+                    else:
+                        d = got[0].delegations.get("a")
+                        okd = d is not None and d.format.name == fmt and d.type == T and \
+                            (d.delegation_details is None) == (fmt == "PoolReference") and \
+                            (fmt == "PoolReference" or det_eq(d.delegation_details, mk_det(own_d, cl)))
+                        if not okd:
+                            res.violation("C12:matrix:decoder-wrong:" + sig, "a well-formed %s entry decodes to something else" % fmt, dcase)
 
 
 def clash_free(fam):
@@ -1081,6 +1242,12 @@ def run_case(case, res):
         check_rejections(case["cty"], case["det"], case["odet"], res)
     elif k == "pools":
         check_pools(case["cty"], case["family"], res)
+    elif k == "dec":
+        check_dec_verdict(case["cty"], case["obj"], res)
+    elif k == "specs":
+        check_specs_verdict(case["cty"], case["calls"], res)
+    elif k == "matrix":
+        check_matrix(case["cty"], res)
     elif k == "call":
         sh = case["shape"]
         check_call(case["cty"], (sh[0], tuple(sh[1]) if sh[1] else None, sh[2], sh[3]), res)
@@ -1127,6 +1294,9 @@ def oracle(ctx, res, n=None):
         res.evaluations += 1
         check_rejections(cty, ["CAPACITY", to_wire({"core": 2})] if cty == "CAPACITY" else ["LABEL", to_wire({"vlan": "3"})],
                          ["LABEL", to_wire({"vlan": "3"})] if cty == "CAPACITY" else ["CAPACITY", to_wire({"core": 2})], res)
+    for cty in TYPES:
+        res.evaluations += len(FORMATS) * len(CONTENTS) * 2
+        check_matrix(cty, res)
     for cty in TYPES:
         for shape in call_shapes():
             res.evaluations += 1
@@ -1189,6 +1359,15 @@ def family_valid(cty, fam):
 
 
 def search(ctx, res, broken):
+    for link, detail in broken:
+        if link == "correspondence" and isinstance(detail, list):
+            for dis in detail:
+                r = dis.get("case")
+                if isinstance(r, list) and len(r) == 3:
+                    res.evaluations += 1
+                    request_verdict(r, impl_eval(r), res)
+    for cty in TYPES:
+        check_matrix(cty, res)
     oracle(ctx, res, n=ctx.scale(15000, 60000))
 
 
